@@ -95,6 +95,8 @@ K_DECLEAF = [
       ["sonic_number::common::is_8digits"], package="sonic-number"),
     K("read_write_u64_window", "big-decimal float fallback leaves: read_u64 / write_u64 on a window of 8..=15 bytes are little-endian, touch exactly the first 8 bytes; v - 0x3030303030303030 after is_8digits(v) cannot underflow and leaves digit values 0..=9",
       ["sonic_number::common::<[u8] as ByteSlice>::read_u64", "sonic_number::common::<[u8] as ByteSlice>::write_u64"], package="sonic-number"),
+    K("decimal_round_add_digit_in_bounds", "big-decimal float fallback: under the stated type invariant (num_digits <= 768, digits <= 9) Decimal::round stays inside the buffer and inside u64 (<= 10^18) for every decimal_point / truncated, and try_add_digit stores inside the buffer or only counts",
+      ["sonic_number::decimal::Decimal::round", "sonic_number::decimal::Decimal::try_add_digit"], package="sonic-number"),
 ]
 
 K_PASTEND = [
